@@ -15,7 +15,9 @@ Record qry := {
   q_re : option (Z * Z);                 (* range end; None = planner.MaxTime *)
   q_lim : option (bool * Z);             (* (limit from start?, limitRecordCount) ; None = 0 = no limit *)
   q_code : nat;                          (* 0 ok, 1 error, 2 panic *)
-  q_rows : list orec
+  q_rows : list orec;
+  q_run : option (Z * Z)                 (* dense cases: the harness verified that the returned rows are exactly
+                                            the dense rows number a .. a+cnt-1 and passes (a, cnt) instead of them *)
 }.
 
 Record case := {
@@ -24,10 +26,24 @@ Record case := {
   k_reclen : Z;                          (* TimeBucketInfo.GetRecordLength(): 24 for a variable bucket *)
   k_years : list Z;                      (* year files present *)
   k_slots : list (Z * list orec);        (* live index slots ascending: a second inside the interval, its records *)
+  k_dense : option (Z * Z * Z);          (* fixed buckets with thousands of live slots: the state IS the series
+                                            (start, count, step): row i at start + i*step with payload le32 i,
+                                            verified by the harness against the unlimited all-time query *)
   k_qs : list qry
 }.
 
 Definition mk_rec (o : orec) : vrec := let '(s, n, d) := o in mkvrec s n (unhexp d).
+
+(** dense series *)
+Definition le32 (i : Z) : list byte :=
+  [byte_of_N (Z.to_N (i mod 256)); byte_of_N (Z.to_N ((i / 256) mod 256));
+   byte_of_N (Z.to_N ((i / 65536) mod 256)); byte_of_N (Z.to_N ((i / 16777216) mod 256))].
+
+Definition dense_rec (d : Z * Z * Z) (i : Z) : vrec :=
+  let '(start, _, step) := d in mkvrec (start + i * step) 0 (le32 i).
+
+Fixpoint dense_run (d : Z * Z * Z) (a : Z) (cnt : nat) : list vrec :=
+  match cnt with O => [] | S c => dense_rec d a :: dense_run d (a + 1) c end.
 
 Definition var_store (k : case) : vstore :=
   mkstore (k_years k) (map (fun '(t, rs) => slot_entry (k_tfs k) (k_reclen k) t (map mk_rec rs)) (k_slots k)).
@@ -35,8 +51,13 @@ Definition var_store (k : case) : vstore :=
 (** a fixed slot holds one row; it is carried as a one-record list too *)
 Definition fix_store (k : case) : storeA vrec :=
   mkstore (k_years k)
-          (map (fun '(t, rs) => slot_entry (k_tfs k) (k_reclen k) t
-                                  (match rs with r :: _ => mk_rec r | [] => mkvrec 0 0 [] end)) (k_slots k)).
+          (match k_dense k with
+           | Some d => let '(_, cnt, _) := d in
+                       map (fun r => slot_entry (k_tfs k) (k_reclen k) (v_sec r) r) (dense_run d 0 (Z.to_nat cnt))
+           | None =>
+               map (fun '(t, rs) => slot_entry (k_tfs k) (k_reclen k) t
+                                      (match rs with r :: _ => mk_rec r | [] => mkvrec 0 0 [] end)) (k_slots k)
+           end).
 
 Definition mk_lim (l : option (bool * Z)) : option (dir * Z) :=
   match l with None => None | Some (b, n) => Some (if b then First else Last, n) end.
@@ -51,48 +72,59 @@ Fixpoint recs_eqb (a b : list vrec) : bool :=
   | _, _ => false
   end.
 
-(** the model's answer to one query, as a record list (fixed rows: stamped epoch, ns 0) *)
-Definition model_query (k : case) (q : qry) : Res (list vrec) :=
-  if k_var k then exec_var (k_tfs k) (var_store k) (q_req q) (q_rs q) (q_re q) (mk_lim (q_lim q))
+(** the model's answer to one query, as a record list (fixed rows: stamped epoch, ns 0); the two
+    stores are built once per case *)
+Definition model_query_st (k : case) (vs : vstore) (fs : storeA vrec) (q : qry) : Res (list vrec) :=
+  if k_var k then exec_var (k_tfs k) vs (q_req q) (q_rs q) (q_re q) (mk_lim (q_lim q))
   else
-    match exec_fixed (k_tfs k) (k_reclen k) (fix_store k) (q_req q) (fst (q_rs q)) (option_map fst (q_re q)) (mk_lim (q_lim q)) with
+    match exec_fixed (k_tfs k) (k_reclen k) fs (q_req q) (fst (q_rs q)) (option_map fst (q_re q)) (mk_lim (q_lim q)) with
     | Ok l => Ok (map (fun '(t, r) => mkvrec t 0 (v_data r)) l)
     | Rejected => Rejected
     | Panic => Panic
     end.
 
-Definition q_agrees (k : case) (q : qry) : bool :=
-  match model_query k q with
-  | Ok l => (q_code q =? 0)%nat && recs_eqb l (map mk_rec (q_rows q))
+Definition vs_of (k : case) : vstore := if k_var k then var_store k else mkstore [] [].
+Definition fs_of (k : case) : storeA vrec := if k_var k then mkstore [] [] else fix_store k.
+
+Definition q_agrees (k : case) vs fs (q : qry) : bool :=
+  match model_query_st k vs fs q with
+  | Ok l => (q_code q =? 0)%nat
+            && recs_eqb l (match q_run q, k_dense k with
+                           | Some (a, cnt), Some d => dense_run d a (Z.to_nat cnt)
+                           | _, _ => map mk_rec (q_rows q)
+                           end)
   | Rejected => (q_code q =? 1)%nat
   | Panic => (q_code q =? 2)%nat
   end.
 
-Definition agrees (k : case) : bool := forallb (q_agrees k) (k_qs k).
+Definition agrees (k : case) : bool :=
+  let vs := vs_of k in let fs := fs_of k in forallb (q_agrees k vs fs) (k_qs k).
 
 (** the guard of the C12 theorems for one limited query *)
-Definition q_guard (k : case) (q : qry) : bool :=
+Definition q_guard (k : case) (vs : vstore) (q : qry) : bool :=
   match mk_lim (q_lim q) with
   | None => false
   | Some (d, n) =>
       (queryable_tfs (q_req q) =? q_req q) && (q_req q =? k_tfs k)
       && (1 <=? n) && (k_reclen k * n <? 2147483648) && (2 <=? k_reclen k)
       && negb (match k_years k with [] => true | _ => false end)
-      && (if k_var k then guard_var (k_tfs k) (var_store k) (q_rs q) (q_re q) d n else true)
+      && (if k_var k then guard_var (k_tfs k) vs (q_rs q) (q_re q) d n else true)
   end.
 
-Definition in_domain (k : case) : bool := existsb (q_guard k) (k_qs k).
+Definition in_domain (k : case) : bool := let vs := vs_of k in existsb (q_guard k vs) (k_qs k).
 
 (** the property on the model: the limited answer is the first/last N of the unlimited answer *)
-Definition q_prop (k : case) (q : qry) : bool :=
+Definition q_prop (k : case) vs fs (q : qry) : bool :=
   match mk_lim (q_lim q) with
   | None => true
   | Some (d, n) =>
-      let q0 := {| q_req := q_req q; q_rs := q_rs q; q_re := q_re q; q_lim := None; q_code := 0; q_rows := [] |} in
-      match model_query k q, model_query k q0 with
+      let q0 := {| q_req := q_req q; q_rs := q_rs q; q_re := q_re q; q_lim := None; q_code := 0; q_rows := []; q_run := None |} in
+      match model_query_st k vs fs q, model_query_st k vs fs q0 with
       | Ok l, Ok l0 => recs_eqb l (match d with First => firstn (Z.to_nat n) l0 | Last => lastn (Z.to_nat n) l0 end)
       | _, _ => false
       end
   end.
 
-Definition model_limit (k : case) : bool := forallb (fun q => implb (q_guard k q) (q_prop k q)) (k_qs k).
+Definition model_limit (k : case) : bool :=
+  let vs := vs_of k in let fs := fs_of k in
+  forallb (fun q => implb (q_guard k vs q) (q_prop k vs fs q)) (k_qs k).
